@@ -308,6 +308,9 @@ func cmdTraceGen(args []string) {
 				init.Opts = append(init.Opts, fl)
 			}
 		}
+		if rng.Intn(4) == 0 {
+			init.Mtx = true
+		}
 		if g.fams["life"] && rng.Intn(10) == 0 {
 			init = AState{Live: false, Kind: "NONE", Err: "none"}
 		}
@@ -330,7 +333,7 @@ func cmdTraceGen(args []string) {
 			ob, dob := Observe(o.S), Observe(d.S)
 			_ = enc.Encode(TraceLine{Ev: "call", On: on, C: c, Ret: ret, Obs: &ob, DObs: &dob})
 			events++
-			if len(ret) > 0 && ret[0] == "PANIC" {
+			if len(ret) > 0 && (ret[0] == "PANIC" || ret[0] == "DEADLOCK") {
 				break // the object may be unusable; start a new history
 			}
 		}
